@@ -454,3 +454,12 @@ def ob_fn_names(r, tier, seed, maxlen=6, alphabet='mainod:0'):
 _c19_obl8 = obligations
 def obligations():
     return _c19_obl8() + [Ob('O19.8-function-go-names', 'only the entry point is renamed to main0; every other function keeps its own Go name', ob_fn_names, ('quick', 'thorough'), 5, {})]
+
+# ----------------------------------------------------------------------------- O19.9 names of the trait-object machinery (same exploration as C17 O17.4)
+def ob_dyn_names_c19(r, tier, seed):
+    from props import c17
+    c17.ob_dyn_names(r, tier, seed)
+
+_c19_obl9 = obligations
+def obligations():
+    return _c19_obl9() + [Ob('O19.9-dyn-names', 'trait-object struct, vtable struct and vtable constructor use one Go name per entity, legal also for methods named like Go keywords (= C17 O17.4)', ob_dyn_names_c19, ('quick', 'thorough'), 2, {})]
